@@ -883,6 +883,14 @@ func oracleC11(c *serveCase, extra []string, res *serveResult) (string, []string
 
 func genC20(tier string, seed uint64, emit func(string)) {
 	r := NewRng(seed)
+	// requests of several connections contending for the dispatch lock: the spans of every connection stay balanced
+	nconc := 6
+	if tier == "thorough" {
+		nconc = 200
+	}
+	for i := 0; i < nconc; i++ {
+		emit(fmt.Sprintf("conc20 %d %d %d", 2+r.Intn(6), 3+r.Intn(10), r.U64()%1000000))
+	}
 	n := 900
 	if tier == "thorough" {
 		n = 40000
@@ -937,11 +945,10 @@ func genC20(tier string, seed uint64, emit func(string)) {
 	}
 }
 
-func oracleC20(c *serveCase, extra []string, res *serveResult) (string, []string) {
-	tags := []string{"nt"}
-	if f := baseFail(res); f != "" {
-		return "na", append(tags, "panic-or-spin")
-	}
+// spanBalance checks a log of span events (ids are global, every start names its parent): every span started once and
+// finished once; a child starts while its parent is open and finishes before it. Returns "" or the failure, and the
+// number of root spans.
+func spanBalance(events []string) (string, int) {
 	// balanced: every span started once and finished once; a child starts after its parent started and
 	// finishes before its parent finishes; one root per request
 	type sp struct {
@@ -952,14 +959,14 @@ func oracleC20(c *serveCase, extra []string, res *serveResult) (string, []string
 	}
 	spans := map[int]*sp{}
 	roots := 0
-	for _, e := range res.events {
+	for _, e := range events {
 		switch {
 		case strings.HasPrefix(e, "start:"):
 			f := strings.SplitN(e, ":", 4)
 			id, _ := strconv.Atoi(f[1])
 			par, _ := strconv.Atoi(f[2])
 			if spans[id] != nil {
-				return fmt.Sprintf("fail:span %d started twice", id), tags
+				return xx("fail:span %d started twice", id), roots
 			}
 			spans[id] = &sp{parent: par, started: true}
 			if par == 0 {
@@ -967,7 +974,7 @@ func oracleC20(c *serveCase, extra []string, res *serveResult) (string, []string
 			} else {
 				pp := spans[par]
 				if pp == nil || pp.finished {
-					return fmt.Sprintf("fail:span %d started under a parent that is not open", id), tags
+					return xx("fail:span %d started under a parent that is not open", id), roots
 				}
 				pp.open++
 			}
@@ -976,11 +983,11 @@ func oracleC20(c *serveCase, extra []string, res *serveResult) (string, []string
 			s := spans[id]
 			switch {
 			case s == nil:
-				return fmt.Sprintf("fail:span %d finished but never started", id), tags
+				return xx("fail:span %d finished but never started", id), roots
 			case s.finished:
-				return fmt.Sprintf("fail:span %d finished twice", id), tags
+				return xx("fail:span %d finished twice", id), roots
 			case s.open != 0:
-				return fmt.Sprintf("fail:span %d finished while a child span is still open", id), tags
+				return xx("fail:span %d finished while a child span is still open", id), roots
 			}
 			s.finished = true
 			if s.parent != 0 {
@@ -990,7 +997,26 @@ func oracleC20(c *serveCase, extra []string, res *serveResult) (string, []string
 	}
 	for id, s := range spans {
 		if !s.finished {
-			return fmt.Sprintf("fail:span %d left open", id), tags
+			return xx("fail:span %d left open", id), roots
+		}
+	}
+	return "", roots
+}
+
+func xx(format string, a ...any) string { return fmt.Sprintf(format, a...) }
+
+func oracleC20(c *serveCase, extra []string, res *serveResult) (string, []string) {
+	tags := []string{"nt"}
+	if f := baseFail(res); f != "" {
+		return "na", append(tags, "panic-or-spin")
+	}
+	if f, _ := spanBalance(res.events); f != "" {
+		return f, tags
+	}
+	roots := 0
+	for _, e := range res.events {
+		if strings.HasPrefix(e, "start:") && strings.SplitN(e, ":", 4)[2] == "0" {
+			roots++
 		}
 	}
 	// one root span per request value processed (plus the iteration that saw the end of the stream / the error);
